@@ -7,6 +7,9 @@ use crate::hist::*;
 pub fn prop() -> HistProp {
     let mut opts = HistOpts::new(Profile::Untyped);
     opts.observers = true;
+    // on overlays a second instance over the same layers (one built before the history, one after
+    // every step) must tell one consistent story too
+    opts.twin = true;
     HistProp {
         opts,
         cfgs: || crate::gen::with_emb(crate::gen::cfg_deep()),
@@ -15,7 +18,7 @@ pub fn prop() -> HistProp {
         cases_quick: 700,
         cases_thorough: 50_000,
         nontrivial: |s, _| s.max_levels >= 2 && s.prefix_pair_present && s.absent_probed >= 1 && s.below_file_probed >= 1,
-        rule: "reachable states of untyped histories vec(op,0..=25) on every backend stack; after every step for every universe path (absent ones, paths below files and the root included): exists<=>metadata Ok, is_file/is_dir<=>metadata type, exists(p)<=>parent lists name exactly once, listed names bare and existing, is_dir<=>read_dir Ok, is_file<=>read session Ok with len=metadata.len, walk_dir(d) = recursive read_dir as a set, each once, parent before child; no model involved; non-trivial = state with >=2 levels, a prefix-sibling name pair in the pool, >=1 absent and >=1 below-a-file path probed",
+        rule: "reachable states of untyped histories vec(op,0..=25) on every backend stack; after every step for every universe path (absent ones, paths below files and the root included): exists<=>metadata Ok, is_file/is_dir<=>metadata type, exists(p)<=>parent lists name exactly once, listed names bare and existing, is_dir<=>read_dir Ok, is_file<=>read session Ok with len=metadata.len, walk_dir(d) = recursive read_dir as a set, each once, parent before child; listings consumed through nth/skip/step_by/count/last/size_hint deliver the names of plain iteration; on overlays the same relations on a second OverlayFS instance over the same layers (built before the history / after every step); no model involved; non-trivial = state with >=2 levels, a prefix-sibling name pair in the pool, >=1 absent and >=1 below-a-file path probed",
         floors: vec![("distinct_nontrivial", 20), ("cfg:mem", 3), ("cfg:phys", 3), ("cfg:altroot", 3), ("cfg:overlay", 3)],
         assumptions: vec!["the relations are evaluated in quiescent states (no concurrent mutation)"],
         exclude: crate::findings::hist_excluder("C05"),
